@@ -2,7 +2,11 @@
 # Generates /verif/MANIFEST.json from the table below (single source of truth).
 import json
 E2="bounded exhaustive input enumeration against a reference model (small-scope model checking of the implementation)"
+E1="exhaustive schedule exploration of the implementation (stateless DFS with state caching under a controlled cooperative scheduler)"
 CHECKS = {
+ "C04": dict(engine="E1", category="model_checking", technique=E1,
+   text="Every configuration (verb chain x input x --records-per-batch) is run on the real pipeline under a cooperative scheduler that owns every channel operation, select, close, spawn and RNG draw; all schedules are enumerated (DFS by re-execution, state caching). Per execution: no deadlock, no step-horizon overrun, no goroutine fault; over all schedules and batch sizes of a (chain,input) pair the (stdout, error, tee file) outcome is a singleton and equals a list-algebra reference where one exists.",
+   note="Goroutines are assumed to interact only through intercepted operations (plus the RNG, which is intercepted); inputs N<=4/6 records; external processes not scheduled. Trusted: tools/vinstr rewrite (syntactic), rt/verifrt scheduler."),
  "C07": dict(engine="E2", category="model_checking", technique=E2,
    text="Exhaustive enumeration of the full cross product of a boundary operand grid for every arithmetic operator, executed on the real BIFs and compared case by case with a math/big reference model; DSL tokens bound to the same BIFs by in-process runs.",
    note="Operands outside the grid are not explored. Trusted: math/big, the reference functions in harness/checks/c07."),
